@@ -68,6 +68,7 @@ func runC06(c *ctx) {
 	jsonata.RegisterExts(map[string]jsonata.Extension{"c06pause": {Func: func() (float64, error) { time.Sleep(3 * time.Millisecond); return 0, nil }}})
 	deep := []string{"($f := function($d){$d <= 0 ? $c06pause() + n : 1 + $f($d - 1)}; $f(90))", "($g := function($d, $acc){$d <= 0 ? $acc + $c06pause() : $g($d - 1, $acc + n)}; $g(100, 0))"}
 	g := &pgen{r: r, noRand: true}
+	multibyteRound := false
 	inputFor := func(k int) interface{} {
 		d := fullDoc(newRng(int64(k)*7919+c.seed), false)
 		if m, ok := d.(map[string]interface{}); ok {
@@ -76,6 +77,12 @@ func runC06(c *ctx) {
 			m["n"] = float64(k + 1)
 			m["b"] = map[string]interface{}{"c": fmt.Sprintf("c%dzq", k)}
 			m["s"] = fmt.Sprintf("%d,x,%d", k, k*k)
+			if multibyteRound {
+				// every other round: the goroutine-specific strings are not ASCII (two-, three- and four-byte characters)
+				m["a"] = fmt.Sprintf("gé%dy日az%d😀%s", k, k, strings.Repeat("ü", k%5))
+				m["b"] = map[string]interface{}{"c": fmt.Sprintf("ç%dz本q", k)}
+				m["s"] = fmt.Sprintf("%d,ñ,%d", k, k*k)
+			}
 		}
 		return d
 	}
@@ -85,6 +92,7 @@ func runC06(c *ctx) {
 	for round := 0; round < rounds && !c.tooMany(); round++ {
 		G := []int{2, 4, 8, 16, 32}[round%5]
 		mode := round % 3 // 0 shared Expr, 1 per-goroutine Expr, 2 with Compile/Register in parallel
+		multibyteRound = round%2 == 1
 		roundStart := time.Now()
 		nprogs := 6
 		iters := itersAll
